@@ -1,5 +1,6 @@
 from excel2pycl.src.context import Context
 from excel2pycl.src.excel import Excel
+from excel2pycl.src.exceptions import E2PyclParserException
 from excel2pycl.src.tokens import AddressControlConstructionToken
 from excel2pycl.src.translators.abstract_translator import AbstractTranslator
 from excel2pycl.src.translators.expression_token_translator import ExpressionTokenTranslator
@@ -8,6 +9,9 @@ from excel2pycl.src.translators.expression_token_translator import ExpressionTok
 class AddressControlConstructionTokenTranslator(AbstractTranslator):
     @classmethod
     def translate(cls, token: AddressControlConstructionToken, excel: Excel, context: Context) -> str:
+        if len(token.expressions) > 3:
+            raise E2PyclParserException('ADDRESS takes a row, a column and at most three further arguments', token.in_cell)
+
         args = [ExpressionTokenTranslator.translate(expression, excel, context) for expression in token.expressions]
         row = ExpressionTokenTranslator.translate(token.row, excel, context)
         col = ExpressionTokenTranslator.translate(token.col, excel, context)
